@@ -186,6 +186,9 @@ func (eng *Engine) registerIntrinsics() {
 	vp("IteByte", func(e *Exec, fr *frame, fn *ssa.Function, args []Value) Value {
 		return e.ctx.Ite(args[0].(*Term), args[1].(*Term), args[2].(*Term))
 	})
+	vp("Fork", func(e *Exec, fr *frame, fn *ssa.Function, args []Value) Value {
+		return mkBool(e.branch(fr, args[0].(*Term)))
+	})
 	vp("Symbolic", func(e *Exec, fr *frame, fn *ssa.Function, args []Value) Value {
 		return mkBool(e.eng.conf.Concrete == nil)
 	})
